@@ -214,6 +214,55 @@ pub fn run(mut run: Run) -> i32 {
         let (ga, gb) = (rewritten(a, how), if how == 3 { b.g.clone() } else { rewritten(b, how) });
         check_result(acc, idx, a, b, &ga, &gb, names[how]);
     });
+    // operands far from the origin / at another scale: the same point sets mapped by an exact similarity (integer offset, power-of-two scale);
+    // the result must be the image of the lattice result: same areas (scaled) and the same per-face membership
+    {
+        use geo::MapCoords;
+        let maps: [(f64, f64, f64); 3] = [(1000000.0, -1000000.0, 1.0), (0.0, 0.0, 1.0 / 1024.0), (-123456.0, 7.0, 64.0)];
+        run.stage("similar-operands", ns * ns * maps.len(), |idx, acc| {
+            let (dx, dy, sc) = maps[idx % maps.len()];
+            let (a, b) = (sub[(idx / maps.len()) / ns], sub[(idx / maps.len()) % ns]);
+            let f = |c: Coord<f64>| Coord { x: (c.x + dx) * sc, y: (c.y + dy) * sc };
+            let (ga, gb) = (a.g.map_coords(f), b.g.map_coords(f));
+            let mut segs = a.ag.segs();
+            segs.extend(b.ag.segs());
+            let arr = arrangement(&segs, &[]);
+            acc.class(format!("similar map{} {}x{}", idx % maps.len(), a.tag, b.tag));
+            for (oi, name) in ["intersection", "union", "difference", "xor"].iter().enumerate() {
+                acc.evals += 1;
+                let (r0, r1) = match guard(|| match oi {
+                    0 => (a.g.intersection(&b.g), ga.intersection(&gb)),
+                    1 => (a.g.union(&b.g), ga.union(&gb)),
+                    2 => (a.g.difference(&b.g), ga.difference(&gb)),
+                    _ => (a.g.xor(&b.g), ga.xor(&gb)),
+                }) {
+                    Ok(x) => x,
+                    Err(e) => {
+                        acc.viol(format!("{} panic on translated/scaled operands", name), idx, || json!({"a": format!("{:?}", ga), "b": format!("{:?}", gb), "panic": e}));
+                        continue;
+                    }
+                };
+                let (a0, a1) = (r0.unsigned_area(), r1.unsigned_area());
+                if (a1 - a0 * sc * sc).abs() > 1e-6 * sc * sc * (1.0 + a0) {
+                    acc.viol(format!("{} area is not the scaled area after an exact similarity map of the operands", name), idx, || json!({"a": format!("{:?}", ga), "b": format!("{:?}", gb), "area": a1, "expected": a0 * sc * sc}));
+                    continue;
+                }
+                for q in &arr.faces {
+                    let want = match oi {
+                        0 => locate(&a.ag, q) == I && locate(&b.ag, q) == I,
+                        1 => locate(&a.ag, q) == I || locate(&b.ag, q) == I,
+                        2 => locate(&a.ag, q) == I && locate(&b.ag, q) != I,
+                        _ => (locate(&a.ag, q) == I) != (locate(&b.ag, q) == I),
+                    };
+                    let (x, y) = ((q.fx() + dx) * sc, (q.fy() + dy) * sc);
+                    if mp_inside_f(&r1, x, y) != want {
+                        acc.viol(format!("{} wrong point set on translated/scaled operands", name), idx, || json!({"a": format!("{:?}", ga), "b": format!("{:?}", gb), "result": format!("{:?}", r1), "witness_point": [x, y]}));
+                        break;
+                    }
+                }
+            }
+        });
+    }
     // Polygon (not Multi) operands and boolean_op
     run.stage("polygon-operands", ns * ns, |idx, acc| {
         let (a, b) = (sub[idx / ns], sub[idx % ns]);
